@@ -12,3 +12,12 @@ namespace rkcommon {
     template QuaternionT<double> slerp(const float, const QuaternionT<double> &, const QuaternionT<double> &);
   }  // namespace math
 }  // namespace rkcommon
+
+namespace rkcommon {
+  namespace math {
+    // orthogonal(): Newton iteration for the polar factor (rule R-C06-orth)
+    // (explicit instantiation of the member only: LinearSpace2::operator Scalar*() does not compile when instantiated)
+    template LinearSpace2<vec_t<float, 2>> LinearSpace2<vec_t<float, 2>>::orthogonal() const;
+    template LinearSpace2<vec_t<double, 2>> LinearSpace2<vec_t<double, 2>>::orthogonal() const;
+  }  // namespace math
+}  // namespace rkcommon
